@@ -1,6 +1,6 @@
 #!/bin/bash
 # run every registered quick check once, sequentially; print one line per check
-cd /verif
+cd "$(dirname "$0")/../.."
 for p in $(python3 -c "import json; print(' '.join(c['property_id'] for c in json.load(open('MANIFEST.json'))['checks']))"); do
   s=$(date +%s)
   out=$(./check $p --tier ${1:-quick} 2>&1)
